@@ -497,10 +497,16 @@ func (r *runner) start(d *taskDef, failSnapshot bool) string {
 		if len(dbrps) == 0 {
 			return "err:nodbrp"
 		}
+		if r.running[d.id] != nil {
+			return "err:executing"
+		}
 		if err == errSnapshot {
 			return "err:snapshot"
 		}
 		return "err:start"
+	}
+	if failSnapshot {
+		return "ok" // StartTask succeeded although the snapshot cannot be loaded
 	}
 	if _, seen := r.everDef[d.id]; !seen {
 		r.order = append(r.order, d.id)
